@@ -177,6 +177,16 @@ func prefixIntrinsic(name string) handlerFn {
 			return h
 		}
 	}
+	// reflection is out of the engine's reach: fail loudly instead of interpreting
+	// reflect's unsafe internals
+	for _, p := range []string{"reflect.", "(reflect.", "(*reflect.", "internal/reflectlite.", "(internal/reflectlite.", "(*internal/reflectlite."} {
+		if strings.HasPrefix(name, p) {
+			n := name
+			return func(fr *frame, args []value) value {
+				panic(engErr("reflection is out of the engine's reach: %s", n))
+			}
+		}
+	}
 	// logging: no-ops returning zero values
 	for _, p := range []string{"log/slog.", "(*log/slog.Logger).", "log.", "(*log.Logger).", "k8s.io/klog/v2.", "(k8s.io/klog/v2.Verbose)."} {
 		if strings.HasPrefix(name, p) {
